@@ -430,6 +430,16 @@ func (u *Unmarshaler) implementsUnmarshaler(t reflect.Type) bool {
 	}
 }
 
+// canonicalOptionalDep canonicalizes the key that optional=dep / optional=!dep refers to,
+// the leading ! is not part of the key.
+func (u *Unmarshaler) canonicalOptionalDep(dep string) string {
+	if len(dep) > 0 && dep[0] == notSymbol {
+		return string(notSymbol) + u.opts.canonicalKey(dep[1:])
+	}
+
+	return u.opts.canonicalKey(dep)
+}
+
 func (u *Unmarshaler) parseOptionsWithContext(field reflect.StructField, m Valuer, fullName string) (
 	string, *fieldOptionsWithContext, error) {
 	key, options, err := parseKeyAndOptions(u.key, field)
@@ -454,7 +464,7 @@ func (u *Unmarshaler) parseOptionsWithContext(field reflect.StructField, m Value
 					EnvVar:     options.EnvVar,
 					Range:      options.Range,
 				},
-				OptionalDep: u.opts.canonicalKey(options.OptionalDep),
+				OptionalDep: u.canonicalOptionalDep(options.OptionalDep),
 			}
 		}
 	}
